@@ -359,7 +359,17 @@ func (s *Service) Stop(ctx context.Context, pipelineID string, force bool) error
 
 	switch force {
 	case false:
-		return s.stopGraceful(ctx, rp, nil)
+		// Mark the run as stopped by the user BEFORE asking the nodes to stop: if
+		// the drain this stop triggers ends with a transient error, the cleanup
+		// goroutine must finalize a user stop instead of restarting the pipeline
+		// (mirrors the arch-v2 engine). The marker is taken back if no stop was
+		// accepted, so a later unrelated failure is still recovered.
+		marked := rp.intentionalStop.CompareAndSwap(false, true)
+		err := s.stopGraceful(ctx, rp, nil)
+		if err != nil && marked {
+			rp.intentionalStop.Store(false)
+		}
+		return err
 	case true:
 		return s.stopForceful(ctx, rp)
 	}
@@ -1029,6 +1039,14 @@ func (s *Service) runPipeline(ctx context.Context, rp *runnablePipeline) error {
 				// we use %+v to get the stack trace too
 				if err := s.pipelines.UpdateStatus(ctx, rp.pipeline.ID, pipeline.StatusDegraded, fmt.Sprintf("%+v", err)); err != nil {
 					return err
+				}
+			} else if rp.intentionalStop.Load() {
+				// The user stopped this run and the drain (or a failure racing
+				// the stop) ended with a transient error: a pipeline the user
+				// stopped is not restarted, finalize the user stop.
+				err = nil
+				if updateErr := s.pipelines.UpdateStatus(ctx, rp.pipeline.ID, pipeline.StatusUserStopped, ""); updateErr != nil {
+					return updateErr
 				}
 			} else {
 				// try to recover the pipeline
